@@ -251,6 +251,51 @@ def static_sampler_with_a_finite_interval_data_follow_the_current_points(S):
             S.forall(f"call-{k}-data-function-evaluated-at-the-points-of-this-call", f, lambda q, f=f, xk=xk, tk=tk: zreal(f.val.at(q)) == w.fdata.value_terms([zreal(tk.val.at([q[0], ()])), zreal(xk.val.at([q[0], (0,)])), zreal(xk.val.at([q[0], (1,)]))])[0])
 
 
+@scenario("C04", [C + "SingleModuleCondition.__init__", C + "SingleModuleCondition.forward", "torchphysics.utils.user_fun.UserFunction._set_input_args_for_function"], configs=["two-conditions-one-lambda-expression"], bounded=BOUND)
+def residuals_from_one_lambda_expression_keep_their_own_default_arguments(S):
+    """history: conditions built in a loop with `lambda u, x, k=k: ...` (one code object, different defaults): each
+    condition's residual is called with ITS OWN default k and the model output / coordinates of ITS OWN sample"""
+    from tpv.spec import UserFn
+
+    w = World(S)
+    n2 = S.int("n2", 1)
+    smp2 = AbstractSampler(S, "smp2", w.sspace, n2)
+    k1, k2 = S.opaque("k_of_the_first"), S.opaque("k_of_the_second")
+    ret = lambda I, bound: bound["u"]
+    r1 = UserFn("res", ["u", "x", "k"], {"k": k1}, returns=ret)
+    r2 = UserFn("res", ["u", "x", "k"], {"k": k2}, returns=ret)
+    r2.code = r1.code
+    c1 = S.new(C + "SingleModuleCondition", w.model.obj, w.sobj, r1, w.E, reduce_fn=w.Rd)
+    c2 = S.new(C + "SingleModuleCondition", w.model.obj, smp2.obj, r2, w.E, reduce_fn=w.Rd)
+    S.method(c2, "forward")
+    S.method(c1, "forward")
+    S.ensure("each-residual-called-once", len(r1.calls) == 1 and len(r2.calls) == 1)
+    if len(r1.calls) == 1 and len(r2.calls) == 1:
+        S.ensure("second-residual-gets-its-own-default", r2.calls[0]["bound"].get("k") is k2)
+        S.ensure("first-residual-gets-its-own-default", r1.calls[0]["bound"].get("k") is k1)
+
+
+@scenario("C14", [C + "SingleModuleCondition.__init__", C + "PINNCondition.__init__", C + "AdaptiveWeightsCondition.__init__", C + "Condition._setup_data_functions"], configs=["single-module", "pinn", "adaptive-weights"], bounded=BOUND)
+def constructing_a_condition_leaves_the_users_sampler_as_configured(S):
+    """a static sampler with a finite resample interval I is handed to a condition constructor: afterwards it is the
+    same object, wrapped around the same sampler, with the SAME resample interval (another condition sharing it keeps
+    getting fresh points every I calls), and the condition uses that very object"""
+    w = World(S)
+    I_ = S.int("I", 1)
+    sobj = S.method(w.sampler.obj, "make_static", I_)
+    res = RowFn("res3", ["u", "x", "t"], 2, {"u": 2, "x": 2, "t": 1})
+    if S.cfg == "single-module":
+        cond = S.new(C + "SingleModuleCondition", w.model.obj, sobj, res, w.E, reduce_fn=w.Rd)
+    elif S.cfg == "pinn":
+        cond = S.new(C + "PINNCondition", w.model.obj, sobj, res)
+    else:
+        cond = S.new(C + "AdaptiveWeightsCondition", w.model.obj, sobj, res)
+    S.ensure("condition-uses-the-users-sampler-object", S.getattr(cond, "sampler") is sobj)
+    S.ensure("still-a-static-sampler-around-the-same-sampler", S.getattr(sobj, "is_static") is True and S.getattr(sobj, "sampler") is w.sampler.obj)
+    ri = S.getattr(sobj, "resample_interval")
+    S.ensure("resample-interval-unchanged", (not isinstance(ri, float)) and zint(ri) == zint(I_))
+
+
 def I_entails(S, f):
     return S.ctx.entails(f)
 
